@@ -19,12 +19,12 @@ theorem C14_call (stream marker : Bytes) (blocksize pos : Nat) (hm : 0 < marker.
       match specNext stream marker pos with
       | some (a, b) => (some (a, b), a)
       | none => (none, stream.length) := by
-  sorry
+  exact getNextEntry_eq_spec stream marker blocksize pos hm hpos
 
 /-- Repeated calls from the start of the stream: buffered scanning = declarative scanning. -/
 theorem C14_scan (stream marker : Bytes) (blocksize fuel : Nat) (hm : 0 < marker.length) :
     scanAll false stream marker blocksize fuel 0 = specAll stream marker fuel 0 := by
-  sorry
+  exact scanAll_eq_specAll stream marker blocksize hm fuel 0 (Nat.zero_le _)
 
 /-- On a generated stream without accidental marker the declarative scan yields exactly the
 intended bounds, one per entry, and then nothing (the list has `entries.length` elements although
@@ -33,7 +33,7 @@ theorem C14_intended (pre marker : Bytes) (entries : List Bytes) (hm : 0 < marke
     (h : NoAccidental pre marker entries) :
     specAll (build pre marker entries) marker (entries.length + 1) 0 =
       intended marker pre.length entries := by
-  sorry
+  exact specAll_intended pre marker entries hm h
 
 /-- Headline: scanning a generated stream returns, in order, one result per entry marker, each
 spanning exactly from the end of its marker to the start of the next (or end of stream), then
@@ -42,13 +42,14 @@ theorem C14_scan_built (pre marker : Bytes) (entries : List Bytes) (blocksize : 
     (hm : 0 < marker.length) (h : NoAccidental pre marker entries) :
     scanAll false (build pre marker entries) marker blocksize (entries.length + 1) 0 =
       intended marker pre.length entries := by
-  sorry
+  rw [scanAll_eq_specAll _ marker blocksize hm _ 0 (Nat.zero_le _)]
+  exact specAll_intended pre marker entries hm h
 
 /-- Content mode: the bytes between the intended bounds are the entries themselves. -/
 theorem C14_content_built (pre marker : Bytes) (entries : List Bytes) :
     (intended marker pre.length entries).map
         (fun ab => ((build pre marker entries).drop ab.1).take (ab.2 - ab.1)) = entries := by
-  sorry
+  exact content_built marker entries pre
 
 /-- Regression witness for the defect repaired in /repo: 23-byte stream, marker at offset 10,
 `blocksize = 15`: the pinned loop returned no entry at all. -/
@@ -57,11 +58,17 @@ theorem C14_negative_pinned :
     let s : Bytes := List.replicate 10 65 ++ M ++ [65,65,65]
     getNextEntry true s M 15 0 = (none, 23) ∧ specNext s M 0 = some (20, 23) ∧
     getNextEntry false s M 15 0 = (some (20, 23), 20) := by
-  sorry
+  decide
 
-/-- Non-vacuity: a concrete stream whose entries contain the marker's own bytes (a partial marker)
-satisfies `NoAccidental`. -/
-example : NoAccidental [1,2,3] [254,255,254,255] [[5,6],[255,254,255],[254,255,254,9]] := by
-  sorry
+/-- Non-vacuity: a concrete stream whose entries contain the marker's own bytes (partial markers
+`255,254,255` and `254,255,254`) satisfies `NoAccidental`. -/
+example : NoAccidental [1,2,3] [254,255,254,255] [[5,6],[255,254,255,7],[9,254,255,254]] := by
+  unfold NoAccidental
+  decide
+
+/-- and a self-overlapping marker makes accidental markers easy to hit: this stream is excluded -/
+example : ¬ NoAccidental [1,2,3] [254,255,254,255] [[5,6],[255,254,255],[254,255,254,9]] := by
+  unfold NoAccidental
+  decide
 
 end Pff.Scan
